@@ -723,6 +723,16 @@ Definition tracker_hyps (pick : bytes -> renv -> option bytes) : Prop :=
   /\ (forall p e n, pick p e = Some n -> n <> [])
   /\ (forall p e, alookup p e = None -> pick p e <> None).
 
+(* what C03 adds about the real tracker after fixes/C03-3 (Props/C03.v C03_not_predeclared_universe, for every
+   history, every reserved table): a local name is never a predeclared identifier.  A HYPOTHESIS here, like
+   [tracker_hyps]: this development treats the tracker abstractly. *)
+Definition tracker_not_predeclared (pick : bytes -> renv -> option bytes) : Prop :=
+  forall p e n, pick p e = Some n -> is_predeclared n = false.
+
+(* ... and on ASCII paths its names are lower-cased (C03_local_name_is_lowercased_words + sanitising) *)
+Definition tracker_lower_case (pick : bytes -> renv -> option bytes) : Prop :=
+  forall p e n, pick p e = Some n -> exported n = false.
+
 Definition parse_hyp (parse_tref : bytes -> option tref) : Prop :=
   forall t, tref_wf t = true -> parse_tref (tref_string t) = Some t.
 
@@ -735,6 +745,13 @@ Definition tracker_inv (self : bytes) (e : renv) : Prop := inv self (fun _ => Tr
 (* no identifier the text uses unqualified is the name of an import *)
 Definition free_names (self : bytes) (g : gty) (e : renv) : Prop :=
   forall n, In n (unq_names self g) -> rlookup n e = None.
+
+(* the part of [free_names] that remains once import names are known not to be predeclared: the names of the
+   target package's own types that occur in g (every other unqualified identifier of the text is predeclared) *)
+Definition free_own_names (self : bytes) (g : gty) (e : renv) : Prop :=
+  forall n, In n (unq_names self g) -> is_predeclared n = false -> rlookup n e = None.
+
+Definition no_predeclared_names (e : renv) : Prop := Forall (fun n => is_predeclared n = false) (map snd e).
 
 Definition all_tags : bytes -> bool := fun _ => true.
 
@@ -797,6 +814,25 @@ Section Final.
     rewrite Ha in Hf. inversion Hf; subst. split; [exact G1|]. split; [exact G2|exact G3].
   Qed.
 
+  (* ---- with the C03 fact as hypothesis the predeclared half of [free_names] is discharged: an import can only
+     clash with the name of one of the target package's own types ---- *)
+  Lemma roundtrip_no_predeclared_imports : forall x g e a e',
+    tracker_not_predeclared pick ->
+    renders x g -> in_domain all_tags self g = true -> tracker_inv self e -> no_predeclared_names e ->
+    frag x e = Ok (a, e') -> free_own_names self g e' ->
+    no_predeclared_names e' /\ resolve e' self a = Some (canon g).
+  Proof.
+    intros x g e a e' Hnp Hx Hd Hi Hnames Hf Hfree. rewrite (frag_type_lit x g e Hx) in Hf.
+    assert (Hi' : inv self (fun n => is_predeclared n = false) e).
+    { destruct Hi as [I1 [I2 [I3 _]]]. repeat split; assumption. }
+    destruct (main_P (fun n => is_predeclared n = false) Hnp g e Hd Hi') as [a0 [e0 [Ha [_ [G2 [_ [_ [_ G6]]]]]]]].
+    rewrite Ha in Hf. inversion Hf; subst. split; [destruct G2 as [_ [_ [_ Hall]]]; exact Hall|].
+    apply G6; [apply ext_refl|exact G2|].
+    intros n Hn. destruct (is_predeclared n) eqn:E; [|apply Hfree; assumption].
+    apply rlookup_none_notin. intros Hin.
+    destruct G2 as [_ [_ [_ Hall]]]. rewrite Forall_forall in Hall. specialize (Hall n Hin). cbn in Hall. congruence.
+  Qed.
+
   (* ---- corollary: when the tracker hands out lower-case, non-predeclared names (what C03 shows of the real
      one on ASCII paths) and the target package's own types are exported, nothing can clash ---- *)
   Definition lower_name (n : bytes) : Prop := is_predeclared n = false /\ exported n = false.
@@ -845,13 +881,14 @@ Section Final.
   Qed.
 
   Lemma roundtrip_exported : forall x g e a e',
-    (forall p e n, pick p e = Some n -> lower_name n) ->
+    tracker_not_predeclared pick -> tracker_lower_case pick ->
     renders x g -> in_domain all_tags self g = true -> locals_exported self g = true ->
     tracker_inv self e -> Forall lower_name (map snd e) ->
     frag x e = Ok (a, e') ->
     resolve e' self a = Some (canon g).
   Proof.
-    intros x g e a e' Hlow Hx Hd Hl Hi Hnames Hf. rewrite (frag_type_lit x g e Hx) in Hf.
+    intros x g e a e' Hnp Hlc Hx Hd Hl Hi Hnames Hf. rewrite (frag_type_lit x g e Hx) in Hf.
+    assert (Hlow : forall p e n, pick p e = Some n -> lower_name n) by (intros p0 e0 n0 Hp0; split; [eapply Hnp|eapply Hlc]; eauto).
     assert (Hi' : inv self lower_name e).
     { destruct Hi as [I1 [I2 [I3 _]]]. repeat split; assumption. }
     destruct (main_P lower_name Hlow g e Hd Hi') as [a0 [e0 [Ha [_ [G2 [_ [_ [_ G6]]]]]]]].
@@ -900,4 +937,62 @@ Proof.
   - intros p e n H Hin. inversion H; subst. apply concat_len_ge in Hin. cbn in Hin. lia.
   - intros p e n H. inversion H. discriminate.
   - intros p e _ H. discriminate.
+Qed.
+
+(* ... also together with the two C03 facts (no predeclared identifier starts with q) *)
+Definition pick_q : bytes -> renv -> option bytes :=
+  fun _ e => Some ("q"%char :: concat (map snd e)).
+
+Lemma tracker_hyps_c03_sat : tracker_hyps pick_q /\ tracker_not_predeclared pick_q /\ tracker_lower_case pick_q.
+Proof.
+  unfold tracker_hyps, tracker_not_predeclared, tracker_lower_case, pick_q. repeat split.
+  - intros p e n H Hin. inversion H; subst. apply concat_len_ge in Hin. cbn in Hin. lia.
+  - intros p e n H. inversion H. discriminate.
+  - intros p e _ H. discriminate.
+  - intros p e n H. inversion H. reflexivity.
+  - intros p e n H. inversion H. reflexivity.
+Qed.
+
+(* ---- the tracker before fixes/C03-3, as far as this development sees it: the last path segment, unless taken ---- *)
+Fixpoint last_segment (cur p : bytes) : bytes :=
+  match p with
+  | [] => rev cur
+  | c :: r => if byte_eqb c "/"%char then last_segment [] r else last_segment (c :: cur) r
+  end.
+
+Definition pick_last_segment : bytes -> renv -> option bytes :=
+  fun p e =>
+    let n := last_segment [] p in
+    if is_nil n || existsb (bytes_eqb n) (map snd e) then pick_long p e else Some n.
+
+Definition parse_only_T : bytes -> option tref := fun _ => Some (TRef [] (bs "T") TRNil).   (* the only name parsed is "T" *)
+
+Definition g_string_clash : gty :=
+  GStruct (GFCons (bs "A") false [] (GBasic BString) []
+          (GFCons (bs "B") false [] (GNamed (bs "x/string") (bs "T") GNil) [] GFNil)).
+
+Lemma tracker_hyps_last_segment : tracker_hyps pick_last_segment.
+Proof.
+  destruct tracker_hyps_sat as [L1 [L2 L3]].
+  unfold tracker_hyps, pick_last_segment. repeat split.
+  - intros p e n H. destruct (is_nil (last_segment [] p) || existsb (bytes_eqb (last_segment [] p)) (map snd e)) eqn:E.
+    + eapply L1; eauto.
+    + inversion H; subst. apply orb_false_iff in E. destruct E as [_ E]. intros Hin.
+      assert (X : existsb (bytes_eqb (last_segment [] p)) (map snd e) = true).
+      { apply existsb_exists. exists (last_segment [] p). split; [exact Hin|apply bytes_eqb_refl]. }
+      congruence.
+  - intros p e n H. destruct (is_nil (last_segment [] p) || existsb (bytes_eqb (last_segment [] p)) (map snd e)) eqn:E.
+    + eapply L2; eauto.
+    + inversion H; subst. apply orb_false_iff in E. destruct E as [E _]. intros Hn. rewrite Hn in E. discriminate.
+  - intros p e Hp. destruct (is_nil (last_segment [] p) || existsb (bytes_eqb (last_segment [] p)) (map snd e)); [apply L3; exact Hp|discriminate].
+Qed.
+
+Lemma import_name_predeclared_refuted_before_fix :
+  tracker_hyps pick_last_segment /\
+  in_domain all_tags (bs "t") g_string_clash = true /\
+  exists a e', ident_frag pick_last_segment parse_only_T (bs "t") (fun _ => true) true true (IdT (view_of g_string_clash)) [] = Ok (a, e')
+               /\ e' = [(bs "x/string", bs "string")] /\ resolve e' (bs "t") a = None.
+Proof.
+  split; [exact tracker_hyps_last_segment|]. split; [vm_compute; reflexivity|].
+  do 2 eexists. split; [vm_compute; reflexivity|]. split; [reflexivity|]. vm_compute. reflexivity.
 Qed.
